@@ -456,6 +456,15 @@ impl Engine {
         }
     }
 
+    /// Replayability audit (VERIF_DUMP_CASES=1): save one generated case per sub-check in the
+    /// replay format, so that `--replay` can be exercised on every case shape without a failure.
+    fn dump_case(&self, subcheck: &str, case: Value) {
+        let dir = format!("{}/replays/dump", out_dir());
+        let _ = std::fs::create_dir_all(&dir);
+        let doc = json!({"property": self.prop, "subcheck": subcheck, "signature": "dump", "message": "", "case": case});
+        let _ = std::fs::write(format!("{}/{}-{}.json", dir, self.prop, subcheck.replace('/', "_")), serde_json::to_string_pretty(&doc).unwrap());
+    }
+
     pub fn report(&self, subcheck: &str, case: Value, fail: Fail) {
         let known = self
             .known
@@ -665,7 +674,12 @@ impl Engine {
                     let mut runner = TestRunner::new(config);
                     let rec = std::cell::RefCell::new(Rec::new(3));
                     let failed_once = std::cell::Cell::new(false);
+                    let dumped = std::cell::Cell::new(shard != 0 || std::env::var_os("VERIF_DUMP_CASES").is_none());
                     let result = runner.run(&strat(), |case| {
+                        if !dumped.get() {
+                            dumped.set(true);
+                            self.dump_case(name, to_json(&case));
+                        }
                         if found.load(Ordering::Relaxed)
                             && !failed_once.get()
                         {
@@ -723,6 +737,11 @@ impl Engine {
             return;
         }
         let t0 = Instant::now();
+        if std::env::var_os("VERIF_DUMP_CASES").is_some() {
+            if let Some(it) = items.first() {
+                self.dump_case(name, to_json(it));
+            }
+        }
         let evals_before = self.evaluations.load(Ordering::SeqCst);
         let next = AtomicU64::new(0);
         std::thread::scope(|s| {
@@ -849,5 +868,12 @@ pub fn truncate(s: &str, n: usize) -> String {
 /// as violations with their message; the default hook would flood stderr
 /// during shrinking).
 pub fn silence_panics() {
+    if std::env::var_os("VERIF_SHOW_PANICS").is_some() {
+        // debugging aid: print where caught panics come from
+        panic::set_hook(Box::new(|info| {
+            eprintln!("[panic] {}\n{}", info, std::backtrace::Backtrace::force_capture());
+        }));
+        return;
+    }
     panic::set_hook(Box::new(|_| {}));
 }
